@@ -593,6 +593,24 @@ func (r *runner) run(t *trace.T) {
 		default:
 			svc = newTaggedAction(name, rec, true, r.i+k)
 		}
+		if (r.i+k)%2 == 1 {
+			// the action name was registered before with another service object (a re-created service, a second
+			// construction of the same component): the later registration is the one whose try runs, so it is the
+			// one phase two must reach.  What the stale object is asked to do is recorded under a name no scenario knows.
+			stale := &recorder{abs: "stale-" + abs, r: r}
+			var old interface{}
+			switch (r.style + k - 1) % 3 {
+			case 0:
+				old = &ifaceAction{name: name, rec: stale}
+			case 1:
+				old = newTaggedAction(name, stale, false, r.i+k+7)
+			default:
+				old = newTaggedAction(name, stale, true, r.i+k+7)
+			}
+			if _, err := tcc.NewTCCServiceProxy(old); err != nil {
+				common.Fatal("NewTCCServiceProxy(%s, first registration): %v", name, err)
+			}
+		}
 		proxy, err := tcc.NewTCCServiceProxy(svc)
 		if err != nil {
 			common.Fatal("NewTCCServiceProxy(%s): %v", name, err)
